@@ -42,11 +42,11 @@ CONSTANTS
   Dts = {%(dts)s}
   MaxT = %(maxt)d
   MaxSteps = %(maxsteps)d
-  GetFaults = {"ok", "temp", "perm", "multi", "bad", "http", "store"}
+  GetFaults = {%(getfaults)s}
   RefFaults = {%(reffaults)s}
-  Kinds = {"fs", "ram"}
-  Lifes = {"prod", "test"}
-  Damages = {"junk", "nullpol"}
+  Kinds = {%(kinds)s}
+  Lifes = {%(lifes)s}
+  Damages = {%(damages)s}
   Devs = {%(devs)s}
   Gen = %(gen)s
 CHECK_DEADLOCK FALSE
@@ -68,10 +68,13 @@ def q(names):
 
 
 def a_cfg(domains=("d1",), ids=("i1", "i2"), vers=(1, 2), ages=(6, 20), dts=(6, 12), maxt=36, maxsteps=7,
-          reffaults=("ok", "temp", "http", "store"), devs=(), gen=False, tail="", spec="Spec"):
+          reffaults=("ok", "temp", "http", "store"), devs=(), gen=False, tail="", spec="Spec",
+          getfaults=("ok", "temp", "perm", "multi", "bad", "http", "store"), kinds=("fs", "ram"), lifes=("prod", "test"),
+          damages=("junk", "nullpol")):
     return A_CFG % dict(spec=spec, domains=q(domains), ids=q(ids), vers=", ".join(map(str, vers)),
                         ages=", ".join(map(str, ages)), dts=", ".join(map(str, dts)), maxt=maxt, maxsteps=maxsteps,
-                        reffaults=q(reffaults), devs=q(devs), gen="TRUE" if gen else "FALSE", tail=tail)
+                        reffaults=q(reffaults), getfaults=q(getfaults), kinds=q(kinds), lifes=q(lifes),
+                        damages=q(damages), devs=q(devs), gen="TRUE" if gen else "FALSE", tail=tail)
 
 
 TRACE_A = dict(domains=("d1", "d2", "d3"), ids=("i1", "i2", "i3"), vers=(1, 2, 3), ages=(6, 12, 20), maxt=100000,
@@ -137,7 +140,11 @@ def run(ctx, replay):
     thorough = ctx.tier == "thorough"
     entries = ext_findings()
     dev_finding, allowed = {}, {}
+    # VERIF_X02_FIXED=X02-F2,...: treat these findings as fixed (to try a proposed fix before the entry is closed)
+    as_fixed = set(filter(None, os.environ.get("VERIF_X02_FIXED", "").split(",")))
     for e in entries:
+        if e["id"] in as_fixed:
+            e = dict(e, status="fixed: (VERIF_X02_FIXED)")
         for d in e["match"]["deviations"]:
             if d not in ALL_A_DEVS + ALL_B_DEVS:
                 raise vlib.Infra("finding %s names an unknown deviation %s" % (e["id"], d))
@@ -162,47 +169,77 @@ def run(ctx, replay):
         for k, x in enumerate(behs + rows):
             x["id"] = k + 1
     else:
-        # ---- (T) exhaustive on the design --------------------------------------
+        # every TLC job of this check is independent of the others: run them side by side
+        from concurrent.futures import ThreadPoolExecutor
+        nsim = 6000 if thorough else 500
+        inv = "VIEW View\nINVARIANTS NoViolation TypeOK"
+        jobs = {
+            "mc": dict(workers=16 if thorough else 6, timeout=2400,
+                       cfg_text=a_cfg(domains=("d1", "d2"), maxsteps=7, reffaults=("ok", "temp", "http"), tail=inv)
+                       if thorough else a_cfg(maxsteps=7, tail=inv)),
+            "asis-all": dict(workers=4, timeout=1800,
+                             cfg_text=a_cfg(maxsteps=7 if thorough else 6, devs=ALL_A_DEVS,
+                                            tail="VIEW View\nINVARIANTS ViolationsExplained TypeOK")),
+            "gen": dict(workers=4, timeout=1200, cfg_text=a_cfg(maxsteps=4, gen=True)),
+            "sim2": dict(workers=1, timeout=1200, simulate=nsim, depth=16,
+                         cfg_text=a_cfg(domains=("d1", "d2"), maxsteps=12, maxt=72, gen=True)),
+            "sim1": dict(workers=1, timeout=1200, simulate=nsim, depth=18,
+                         cfg_text=a_cfg(ages=(6, 12, 20), maxsteps=14, maxt=96, gen=True)),
+        }
+        # the refresh loop at work: few kinds of action, so random walks reach "entry about to expire when the loop runs"
+        jobs["sim3"] = dict(workers=1, timeout=1200, simulate=nsim, depth=16,
+                            cfg_text=a_cfg(vers=(1,), ages=(6, 12, 20), maxsteps=12, maxt=96, gen=True, lifes=("test",),
+                                           getfaults=("ok", "http"), reffaults=("ok", "http"), damages=("junk",)))
         if thorough:
-            r = ctx.tlc_expect_ok("StsCache", None, name="mc", workers=16, timeout=2400,
-                                  cfg_text=a_cfg(domains=("d1", "d2"), ages=(6, 20), maxsteps=7, reffaults=("ok", "temp", "http"),
-                                                 tail="VIEW View\nINVARIANTS NoViolation TypeOK"))
-            r1 = ctx.tlc_expect_ok("StsCache", None, name="mc1", workers=16, timeout=2400,
-                                   cfg_text=a_cfg(ages=(6, 12, 20), dts=(6, 12), maxt=48, maxsteps=9,
-                                                  tail="VIEW View\nINVARIANTS NoViolation TypeOK"))
-            ctx.cov["states_one_domain_deep"] = r1["distinct"]
-            ctx.cov["transitions_one_domain_deep"] = r1["generated"]
-            ctx.cov["model_depth_one_domain_deep"] = r1["depth"]
-            ctx.log("TLC exhaustive (1 domain, 3 ages, 9 steps): %d distinct states, %d generated, depth %d, %.1fs" % (
-                r1["distinct"], r1["generated"], r1["depth"], r1["wall"]))
-        else:
-            r = ctx.tlc_expect_ok("StsCache", None, name="mc", workers=8, timeout=600,
-                                  cfg_text=a_cfg(maxsteps=7, tail="VIEW View\nINVARIANTS NoViolation TypeOK"))
+            jobs["mc1"] = dict(workers=16, timeout=2400,
+                               cfg_text=a_cfg(ages=(6, 12, 20), maxt=48, maxsteps=9, tail=inv))
+        for d in ALL_A_DEVS:
+            jobs["asis-" + d] = dict(workers=2, timeout=600,
+                                     cfg_text=a_cfg(maxsteps=7, devs=[d], tail="VIEW View\nINVARIANTS NoViolation"))
+        tjobs = {
+            "tables": dict(workers=6, timeout=2400,
+                           cfg_text=B_CFG % dict(spec="Spec", maxmx=3 if thorough else 2, devs="", gen="TRUE",
+                                                 tail="INVARIANTS RuleSatisfiesProp\nCONSTRAINT Emit")),
+            "tables-asis": dict(workers=2, timeout=600,
+                                cfg_text=B_CFG % dict(spec="Spec", maxmx=1, devs=q(["TxtNoDiscard"]), gen="FALSE",
+                                                      tail="INVARIANTS RuleSatisfiesProp")),
+        }
+        with ThreadPoolExecutor(max_workers=6) as ex:
+            futs = {k: ex.submit(ctx.tlc, "StsCache", None, name=k, **kw) for k, kw in jobs.items()}
+            futs.update({k: ex.submit(ctx.tlc, "StsCacheTables", None, name=k, **kw) for k, kw in tjobs.items()})
+            res = {k: f.result() for k, f in futs.items()}
+
+        def must_ok(k, what):
+            r = res[k]
+            if not r["ok"]:
+                raise vlib.Infra("%s: invariant=%s error=%s (see %s/tlc.out)" % (what, r["invariant"], r["error"], r["dir"]))
+            return r
+
+        # ---- (T) exhaustive on the design --------------------------------------
+        r = must_ok("mc", "TLC did not accept the design StsCache.tla")
         ctx.cov["states"] = r["distinct"]
         ctx.cov["transitions"] = r["generated"]
         ctx.cov["model_depth"] = r["depth"]
         ctx.log("TLC exhaustive: %d distinct states, %d generated, depth %d, %.1fs" % (
             r["distinct"], r["generated"], r["depth"], r["wall"]))
+        if thorough:
+            r1 = must_ok("mc1", "TLC did not accept the design StsCache.tla (1 domain, deep)")
+            ctx.cov["states_one_domain_deep"] = r1["distinct"]
+            ctx.cov["transitions_one_domain_deep"] = r1["generated"]
+            ctx.cov["model_depth_one_domain_deep"] = r1["depth"]
+            ctx.log("TLC exhaustive (1 domain, 3 ages, 9 steps): %d distinct states, %d generated, depth %d, %.1fs" % (
+                r1["distinct"], r1["generated"], r1["depth"], r1["wall"]))
         # ---- as-is: each deviation is caught by the predicates; every as-is violation is explained -------
         for d in ALL_A_DEVS:
-            ra = ctx.tlc("StsCache", None, name="asis-" + d, workers=4, timeout=600,
-                         cfg_text=a_cfg(maxsteps=7, devs=[d], tail="VIEW View\nINVARIANTS NoViolation"))
+            ra = res["asis-" + d]
             if ra["invariant"] != "NoViolation":
                 raise vlib.Infra("as-is model with %s does not violate NoViolation: predicates vacuous? (%s)" % (d, ra["error"]))
-        rx = ctx.tlc("StsCache", None, name="asis-all", workers=8, timeout=900,
-                     cfg_text=a_cfg(maxsteps=6 if not thorough else 7, devs=ALL_A_DEVS,
-                                    tail="VIEW View\nINVARIANTS ViolationsExplained TypeOK"))
-        if not rx["ok"]:
-            raise vlib.Infra("as-is model: a violation is not explained by a deviation taken (%s %s, see %s)" % (
-                rx["invariant"], rx["error"], rx["dir"]))
+        rx = must_ok("asis-all", "as-is model: a violation is not explained by a deviation taken")
         ctx.cov["asis_counterexample_found"] = True
         ctx.cov["asis_states"] = rx["distinct"]
 
         # ---- behaviours out of TLC ------------------------------------------------------------------
-        g = ctx.tlc("StsCache", None, name="gen", workers=8, timeout=1200,
-                    cfg_text=a_cfg(maxsteps=4, gen=True))
-        if not g["ok"]:
-            raise vlib.Infra("behaviour generation failed: %s %s" % (g["invariant"], g["error"]))
+        g = must_ok("gen", "behaviour generation failed")
         allb = behaviours_from(g)
         ctx.cov["exhaustive_behaviours_4_steps"] = len(allb)
         behs = []
@@ -221,14 +258,8 @@ def run(ctx, replay):
             for sg in top + rest[:250]:
                 behs.append(ctx.rng.choice(groups[sg]))
             ctx.cov["behaviour_shapes_4_steps"] = len(sigs)
-        nsim = 6000 if thorough else 500
-        for name, cfgt, depth in (
-                ("sim2", a_cfg(domains=("d1", "d2"), maxsteps=12, maxt=72, gen=True), 16),
-                ("sim1", a_cfg(ages=(6, 12, 20), maxsteps=14, maxt=96, gen=True), 18)):
-            g2 = ctx.tlc("StsCache", None, name=name, workers=1, timeout=1200, simulate=nsim, depth=depth, cfg_text=cfgt)
-            if not g2["ok"]:
-                raise vlib.Infra("behaviour simulation failed: %s %s" % (g2["invariant"], g2["error"]))
-            behs += behaviours_from(g2)
+        for name in ("sim2", "sim1", "sim3"):
+            behs += behaviours_from(must_ok(name, "behaviour simulation failed"))
         seen_b, uniq = set(), []
         for b in behs:
             k = json.dumps(b, sort_keys=True)
@@ -255,8 +286,11 @@ def run(ctx, replay):
         selftest = {}
         if not replay:
             base = None
+            ev_of = {}
+            for e in events:
+                ev_of.setdefault(e["t"], []).append(e)
             for b in behs:
-                evs = [e for e in events if e["t"] == b["id"]]
+                evs = ev_of.get(b["id"], [])
                 if b["cfg"]["life"] == "test" and any(e["e"] == "Get" and e["res"]["kind"] == "policy" and e["fetch"] for e in evs) \
                         and not any(e["e"] == "Get" and e["flt"] == "store" for e in evs) \
                         and not any(e["e"] == "Corrupt" for e in evs):
@@ -276,8 +310,22 @@ def run(ctx, replay):
             del c2[k]                                           # the start-up run of the refresh loop is missing
             events = events + c1 + c2
             selftest = {900001: "forged policy", 900002: "dropped refresh run"}
-        verdicts, by_t = ctx.validate("StsCacheTrace", None, events,
-                                      cfg_text=a_cfg(**dict(TRACE_A, devs=open_a)), batch=1500)
+        # trace validation, batches side by side
+        ts = sorted(set(e["t"] for e in events))
+        per = 1500
+        chunks = [set(ts[i:i + per]) for i in range(0, len(ts), per)]
+        tcfg = a_cfg(**dict(TRACE_A, devs=open_a))
+
+        def val(k):
+            return ctx.validate("StsCacheTrace", None, [e for e in events if e["t"] in chunks[k]],
+                                cfg_text=tcfg, batch=per, name="tv%d" % k)
+
+        from concurrent.futures import ThreadPoolExecutor as TPE
+        verdicts, by_t = {}, {}
+        with TPE(max_workers=6) as ex:
+            for v, bt in ex.map(val, range(len(chunks))):
+                verdicts.update(v)
+                by_t.update(bt)
         def classify(rec):
             """'ok' | 'known' (exactly the deviations of open findings) | 'violation' | 'drift'"""
             viol, taken = set(rec["viol"]), list(rec["taken"])
@@ -286,8 +334,10 @@ def run(ctx, replay):
             ok_preds = set()
             for d in taken:
                 ok_preds |= allowed.get(d, set())
-            if not rec["drift"] and taken and all(d in dev_finding for d in taken) and viol <= ok_preds:
-                return "known"
+            if taken and all(d in dev_finding for d in taken) and viol <= ok_preds:
+                # every false predicate is one an open finding's deviation, taken by this trace, accounts for;
+                # if the design lost track of the trace meanwhile that is drift, not a violation
+                return "drift" if rec["drift"] else "known"
             return "violation"
 
         for t, recs in sorted(verdicts.items()):
@@ -326,18 +376,13 @@ def run(ctx, replay):
 
     # =========================== pattern B: matching and fetch decision ===========================
     if rows is None:
-        rb = ctx.tlc_expect_ok("StsCacheTables", None, name="tables", workers=8, timeout=2400,
-                               cfg_text=B_CFG % dict(spec="Spec", maxmx=3 if thorough else 2, devs="", gen="TRUE",
-                                                     tail="INVARIANTS RuleSatisfiesProp\nCONSTRAINT Emit"))
+        rb = must_ok("tables", "TLC did not accept StsCacheTables.tla")
         rows = vtable.rows_from(rb)
         if len(rows) != rb["distinct"]:
             raise vlib.Infra("TLC printed %d distinct rows for %d states" % (len(rows), rb["distinct"]))
         ctx.cov["table_rows"] = rb["distinct"]
         ctx.log("TLC tables: %d rows, Prop(in, Rule(in)) holds on all, %.1fs" % (rb["distinct"], rb["wall"]))
-        rba = ctx.tlc("StsCacheTables", None, name="tables-asis", workers=4, timeout=600,
-                      cfg_text=B_CFG % dict(spec="Spec", maxmx=1, devs=q(["TxtNoDiscard"]), gen="FALSE",
-                                            tail="INVARIANTS RuleSatisfiesProp"))
-        if rba["invariant"] != "RuleSatisfiesProp":
+        if res["tables-asis"]["invariant"] != "RuleSatisfiesProp":
             raise vlib.Infra("as-is tables (TxtNoDiscard) do not violate Prop: predicates vacuous?")
     rows_ok = 0
     if rows:
@@ -412,7 +457,8 @@ def run(ctx, replay):
     ctx.cov["exhaustive"] = False
     ctx.cov["rule"] = ("behaviours = complete behaviours of StsCache.tla printed by TLC: every behaviour of 4 actions (1 domain; quick: "
                        "one per shape, the 250 heaviest shapes + 250 seeded; thorough: all) plus -simulate runs (2 domains x 12 "
-                       "actions, 1 domain x 14 actions; 500 each quick, 6000 each thorough), de-duplicated; rows = every state of "
+                       "actions, 1 domain x 14 actions, 1 domain with the refresh loop running and few kinds of action x 12; 500 "
+                       "each quick, 6000 each thorough), de-duplicated; rows = every state of "
                        "StsCacheTables.tla (MaxMx 2 quick / 3 thorough); non-trivial = a behaviour with a clock step, restart, "
                        "damage or fault / a row that is not a single-label match")
     ctx.assumptions += [
